@@ -1280,6 +1280,11 @@ func (e *Engine) reportFinding(st *State, kind, label, site string) {
 	f.Inputs = e.model(st)
 	if f.Inputs == nil {
 		f.Status = "no-model"
+		delete(e.findKey, key)
+		if e.noModel[key] {
+			return
+		}
+		e.noModel[key] = true
 	}
 	e.res.Findings = append(e.res.Findings, f)
 }
